@@ -149,7 +149,7 @@ theorem stepBlock_sound (e : Env) (m : Memory) (idx : Nat) (b : BlockOp) (i : Op
     (∀ rg src, (rg, src) ∈ b.scales.zip i.ssrc → rg.region ≠ e.constRegion →
       ConstHolds m rg.region rg.addr rg.len src) ∧
     (∀ li, lutIndex b.activation = some li →
-      ConstHolds m REGION_SHRAM (e.lutBase + li * 256) i.lutLen i.lutsrc) :=
+      ConstHolds m REGION_SHRAM (lutAddr e b li) (lutTableBytes b) i.lutsrc) :=
   Mem.stepBlock_sound e h idx b i herr
 
 /-- one-step soundness, DMA -/
@@ -285,5 +285,116 @@ example : (execTagged exEnv [(1, IMap.write [] 16 48 7 (-16))] [.block exTileBlo
     [.block { exInfo with ifm := ⟨7, 0, 0, 0, [0, 0, 0, 0]⟩ }]).length = 1 := by decide
 example : tileOf exTileFm 1 2 = 1 ∧ tileShift [0, -8, 0, 0] 1 = -8 ∧ fmAddr exTileFm 1 2 3 = 43 ∧
     (canon exTileFm 1 2 3 : Int) - 43 + (-8) = -16 := by decide
+
+/-! ## 7. lookup tables of different sizes -/
+
+/-- 7a. the table an operation reads is 256 B, 512 B, 1 KiB or 2 KiB for the element sizes the decoder produces, and
+    a whole number of such tables fills the 2 KiB window -/
+theorem lutTableBytes_cases (b : BlockOp) (ho : b.ofm.elemBytes = 1 ∨ b.ofm.elemBytes = 2 ∨ b.ofm.elemBytes = 4) :
+    (lutTableBytes b = 256 ∨ lutTableBytes b = 512 ∨ lutTableBytes b = 1024 ∨ lutTableBytes b = 2048) ∧
+      2048 % lutTableBytes b = 0 := by
+  unfold lutTableBytes
+  split <;> rcases ho with h' | h' | h' <;> simp [h']
+
+/-- 7b. an operation whose activation works on 8-bit values and writes 8-bit results reads the 256-byte slot `li`; one
+    that works on 16-bit values reads 2 KiB from the start of its slot; the forced-int8 lookup with an int32 result (the
+    softmax exponent) reads 1 KiB -/
+theorem lutTableBytes_8bit (b : BlockOp) (ha : actBytes b = 1) (ho : b.ofm.elemBytes = 1) : lutTableBytes b = 256 := by
+  simp [lutTableBytes, ha, ho]
+
+theorem lutTableBytes_16bit (b : BlockOp) (ha : actBytes b = 2) : lutTableBytes b = 2048 := by
+  simp [lutTableBytes, ha]
+
+theorem lutTableBytes_forced_int8_int32 (b : BlockOp) (hc : b.activation / 4096 % 16 = 3) (ho : b.ofm.elemBytes = 4) :
+    lutTableBytes b = 1024 := by
+  simp [lutTableBytes, actBytes, hc, ho]
+
+/-- without a forced range the activation precision is the OFM precision, whatever the IFM precision is -/
+theorem actBytes_unforced (b : BlockOp) (hc : b.activation / 4096 % 16 = 0) : actBytes b = b.ofm.elemBytes := by
+  simp [actBytes, hc]
+
+/-- 7c. every 256-byte slot of the window lies inside the 2 KiB table a 16-bit lookup placed in slot 0 reads:
+    the wide table overlaps *all* narrow slots, not only slot 0 -/
+theorem narrow_slot_inside_wide_table (e : Env) (b8 b16 : BlockOp) (li : Nat) (hli : li < 8)
+    (h8i : actBytes b8 = 1) (h8o : b8.ofm.elemBytes = 1) (h16 : actBytes b16 = 2) :
+    lutAddr e b16 0 ≤ lutAddr e b8 li ∧ lutAddr e b8 li + lutTableBytes b8 ≤ lutAddr e b16 0 + lutTableBytes b16 := by
+  rw [lutAddr, lutAddr, lutTableBytes_8bit b8 h8i h8o, lutTableBytes_16bit b16 h16]
+  omega
+
+/-- 7d. distinct slots of 256-byte tables are disjoint; a wider table placed at index `li` covers the slots
+    `li … li + size/256 − 1` -/
+theorem lut_slots_disjoint (e : Env) (b : BlockOp) (li lj : Nat) (h : li < lj) (ha : actBytes b = 1) (ho : b.ofm.elemBytes = 1) :
+    lutAddr e b li + lutTableBytes b ≤ lutAddr e b lj := by
+  rw [lutTableBytes_8bit b ha ho]
+  unfold lutAddr
+  omega
+
+theorem wide_table_covers_slots (e : Env) (bw b8 : BlockOp) (li k : Nat) (hk : (k + 1) * 256 ≤ lutTableBytes bw)
+    (ha : actBytes b8 = 1) (ho : b8.ofm.elemBytes = 1) :
+    lutAddr e bw li ≤ lutAddr e b8 (li + k) ∧ lutAddr e b8 (li + k) + lutTableBytes b8 ≤ lutAddr e bw li + lutTableBytes bw := by
+  rw [lutTableBytes_8bit b8 ha ho]
+  unfold lutAddr
+  constructor <;> omega
+
+/-- 7e. **A table load evicts every table it overlaps, whatever its size.** After a DMA of constant data into SHRAM
+    (tag delta `δ`), a TABLE_LOOKUP operation whose table (slot and size from *its own* precisions) starts inside the
+    loaded range is rejected unless the loaded bytes are exactly the bytes it expects there (`lutsrc − address = δ`).
+    In particular a 2 KiB table loaded over the window invalidates the 256-byte tables of all eight slots
+    (`narrow_slot_inside_wide_table`), which is what `LUTState.put` has to mirror when it forgets overlapped tables. -/
+theorem table_load_evicts_overlapped_table (e : Env) (m : Memory) (h : m.Inv) (k idx : Nat) (src : AddrRange) (par : Nat)
+    (a0 len : Nat) (δ : Int) (b : BlockOp) (i : OpInfo) (li : Nat)
+    (hli : lutIndex b.activation = some li)
+    (hin : a0 ≤ lutAddr e b li ∧ lutAddr e b li < a0 + len) (hpos : 0 < lutTableBytes b)
+    (hne : i.lutsrc - (lutAddr e b li : Nat) ≠ δ) :
+    (stepBlock e (stepDma e m k ⟨src, ⟨REGION_SHRAM, a0, len⟩, par⟩ ⟨0, 0, constTid, δ, 0⟩).2 idx b i).1 ≠ [] := by
+  intro herr
+  have hinv : (stepDma e m k ⟨src, ⟨REGION_SHRAM, a0, len⟩, par⟩ ⟨0, 0, constTid, δ, 0⟩).2.Inv :=
+    Mem.writePieces_inv (Mem.writePieces_inv h _ _ _ _) _ _ _ _
+  have hs := (Mem.stepBlock_sound e hinv idx b i herr).2.2.2.2 li hli (lutAddr e b li) (Nat.le_refl _) (by omega)
+  have hv : DmaInfo.validLen ⟨0, 0, constTid, δ, 0⟩ len = len := by simp [DmaInfo.validLen]
+  have hw : (stepDma e m k ⟨src, ⟨REGION_SHRAM, a0, len⟩, par⟩ ⟨0, 0, constTid, δ, 0⟩).2.get REGION_SHRAM (lutAddr e b li) =
+      some (constTid, δ) := by
+    show (writePieces (writePieces m REGION_SHRAM junkTid [⟨a0, len, 0⟩]) REGION_SHRAM constTid
+      [⟨a0, DmaInfo.validLen ⟨0, 0, constTid, δ, 0⟩ len, δ⟩]).get REGION_SHRAM (lutAddr e b li) = _
+    rw [hv]
+    have := Mem.get_writePieces_written_eq (Mem.writePieces_inv h REGION_SHRAM junkTid [⟨a0, len, 0⟩] 0) REGION_SHRAM constTid
+      [⟨a0, len, δ⟩] 0 (p := ⟨a0, len, δ⟩) List.mem_cons_self (b := lutAddr e b li) ⟨hin.1, hin.2⟩
+      (fun q hq _ => by cases List.mem_singleton.mp hq; rfl)
+    simpa using this
+  rw [hw] at hs
+  injection hs with hs
+  injection hs with _ hd
+  exact hne hd.symm
+
+/-! ### non-vacuity: the mixed-size witness (tanh8 → slot 0, logistic8 → slot 1, exp16 → whole window, logistic8 again)
+
+`exEnv` has its table window at SHRAM byte 14336. Three table loads (constants at 1000, 2000, 4000), then an 8-bit
+operation that looks up in slot 1 and expects the table at 2000. -/
+def exLutBlock (slot : Nat) : BlockOp := { exBlock with activation := 16 + slot }
+def exLutBlock16 : BlockOp := { exBlock with activation := 16, ifm := { exFm with elemBytes := 2 }, ofm := { exFm with region := 2, elemBytes := 2 } }
+def exLoad (src dst len : Nat) : DecOp × Info := (.dma ⟨⟨0, src, len⟩, ⟨REGION_SHRAM, dst, len⟩, 0⟩, .dma ⟨0, 0, 0, (src : Int) - dst, 0⟩)
+def exLookup (b : BlockOp) (src : Int) (len : Nat) : DecOp × Info := (.block b, .block { exInfo with lutsrc := src, lutLen := len })
+def exRun (l : List (DecOp × Info)) : List String := execTagged exEnv exInit (l.map (·.1)) (l.map (·.2))
+
+/-- the wide table was loaded over slot 1 and the narrow one was not loaded again: rejected -/
+example : (exRun [exLoad 1000 14336 256, exLoad 2000 14592 256, exLoad 4000 14336 2048, exLookup (exLutBlock 1) 2000 256]).length = 1 := by
+  decide
+/-- … loaded again after the wide one: accepted; so is the use before the wide load -/
+example : exRun [exLoad 1000 14336 256, exLoad 2000 14592 256, exLoad 4000 14336 2048, exLoad 2000 14592 256,
+    exLookup (exLutBlock 1) 2000 256] = [] := by decide
+example : exRun [exLoad 1000 14336 256, exLoad 2000 14592 256, exLookup (exLutBlock 1) 2000 256, exLoad 4000 14336 2048,
+    exLookup exLutBlock16 4000 2048] = [] := by decide
+/-- a 16-bit lookup reads 2 KiB: a window that only holds its first 256 bytes is rejected (the size comes from the
+    decoded precision, not from the side information); the IFM precision does not matter (int8 IFM, int16 OFM: 2 KiB) -/
+example : (exRun [exLoad 4000 14336 256, exLookup exLutBlock16 4000 256]).length = 1 := by decide
+example : lutTableBytes (exLutBlock 1) = 256 ∧ lutTableBytes exLutBlock16 = 2048 ∧ lutAddr exEnv (exLutBlock 1) 1 = 14592 ∧
+    lutTableBytes { exLutBlock16 with ifm := exFm } = 2048 ∧
+    lutTableBytes { exLutBlock 1 with activation := 17 + 3 * 4096, ofm := { exFm with elemBytes := 4 } } = 1024 := by decide
+/-- the hypotheses of `table_load_evicts_overlapped_table` hold for the witness -/
+example : lutIndex (exLutBlock 1).activation = some 1 ∧ (14336 ≤ lutAddr exEnv (exLutBlock 1) 1 ∧ lutAddr exEnv (exLutBlock 1) 1 < 14336 + 2048) ∧
+    0 < lutTableBytes (exLutBlock 1) ∧ (2000 : Int) - (lutAddr exEnv (exLutBlock 1) 1 : Nat) ≠ (4000 : Int) - 14336 := by decide
+/-- the side-information cross-check -/
+example : (lutSideProblems [.block exLutBlock16] [.block { exInfo with lutsrc := 4000, lutLen := 256 }]).length = 1 ∧
+    lutSideProblems [.block exLutBlock16] [.block { exInfo with lutsrc := 4000, lutLen := 2048 }] = [] := by decide
 
 end VelaVerif.Props.C03
